@@ -42,90 +42,106 @@ def items(pr):
     return [fn("rp2.in_transaction.InTransaction.__init__"), fn("rp2.out_transaction.OutTransaction.__init__"), fn("rp2.intra_transaction.IntraTransaction.__init__"), custom("rows", rows), custom("columns", columns), custom("numbers", numbers), custom("fee_split", fee_split), lemma("C11.rounding"), lemma("C11.fee_model")]
 
 
+def _split_fn(pr):
+    """_create_and_process_transaction with the local holding the freshly built transaction renamed to `transaction`."""
+    q = "rp2.ods_parser._create_and_process_transaction"
+    f = A.func_node(pr.tree, q)
+    if f is None:
+        return None
+    m = {}
+    for st in f.body:
+        tg = st.targets[0] if isinstance(st, ast.Assign) and len(st.targets) == 1 else st.target if isinstance(st, ast.AnnAssign) else None
+        if isinstance(tg, ast.Name) and isinstance(getattr(st, "value", None), ast.Call) and A.dotted(st.value.func) == "_create_transaction":
+            m[tg.id] = "transaction"
+    fr = A.renamed(f, m)
+    A._MOD_OF[id(fr)] = A._MOD_OF.get(id(f))
+    return fr
+
+
 def rows(pr):
     from props import C12
     keep = ("data_row_is_processed_exactly_once", "header_row_is_not_added", "table_keyword_opens", "table_end_closes", "blank_row_between_tables", "loop_body_is_within",
             "row_classes_begin_end_empty", "input_data_is_built")
     out = [vc for vc in C12.structure(pr) if any(k in vc.label for k in keep)]
     f, lp = C12.row_loop(pr)
+    mod = pr.tree.modules["rp2.ods_parser"]
     if lp is not None:
-        s = ast.unparse(lp)
-        out.append(A.bvc(C12.Q, "shape", "row_values_are_all_cells_of_the_row_in_order", "row_values: List[Any] = [cell.value for cell in row]" in s and
-                         ast.unparse(lp.target) in ("(i, row)", "i, row"), REL))
+        out.append(A.bvc(C12.Q, "shape", "row_values_are_all_cells_of_the_row_in_order", A.has(lp, "row_values = [cell.value for cell in row]", mod.tree, scope=A.scope_of(f, mod.tree)), REL))
         out.append(A.bvc(C12.Q, "shape", "no_break_continue_return_in_the_row_loop", not [n for n in ast.walk(lp) if isinstance(n, (ast.Break, ast.Continue, ast.Return))], REL))
     q = "rp2.ods_parser._create_and_process_transaction"
-    fn_ = A.func_node(pr.tree, q)
+    fn_ = _split_fn(pr)
     if fn_ is not None:
+        sc = A.scope_of(fn_, mod.tree)
         t = D.Table()
         paths = t.run(fn_.body, [D.Path([], [], {})])
         split = t.atom("isinstance(transaction, InTransaction)")
         fee = t.atom("transaction.is_crypto_fee_defined")
         adds = lambda p: [e for k, e in p.effects if k == "call" and ".add_entry(" in e]
-        arts = lambda p: [e for k, e in p.effects if k == "call" and e.startswith("artificial_transaction_list.append(")]
+        arts = lambda p: [e for k, e in p.effects if k == "call" and ".append(" in e]
         live = [p for p in paths if D.feasible([z3.Not(z3.And(split, fee))] + p.cond)]
+        plain = lambda p: len(adds(p)) == 1 and A.expr_eq("unfiltered_transaction_sets[current_table_type].add_entry(transaction)", adds(p)[0], sc) and not arts(p) and not p.done
         out.append(VC(q, "case", "row_without_crypto_fee_is_added_once_to_the_set_of_its_table", [z3.Not(z3.And(split, fee))],
-                      z3.And(*[z3.Implies(z3.And(*p.cond) if p.cond else z3.BoolVal(True), z3.BoolVal(adds(p) == ["unfiltered_transaction_sets[current_table_type].add_entry(transaction)"] and not arts(p) and not p.done))
-                               for p in live]) if live else z3.BoolVal(False), REL, 0))
+                      z3.And(*[z3.Implies(z3.And(*p.cond) if p.cond else z3.BoolVal(True), z3.BoolVal(plain(p))) for p in live]) if live else z3.BoolVal(False), REL, 0))
         live = [p for p in paths if D.feasible([split, fee] + p.cond)]
+        two = lambda p: len(adds(p)) == 1 and A.expr_eq("unfiltered_transaction_sets[EntrySetType.IN].add_entry(InTransaction(ANY))", adds(p)[0], sc) and \
+            len(arts(p)) == 1 and A.expr_eq("artificial_transaction_list.append(OutTransaction(ANY))", arts(p)[0], sc) and not p.done
         out.append(VC(q, "case", "in_row_with_crypto_fee_becomes_one_acquisition_plus_one_artificial_fee_disposal", [split, fee],
-                      z3.And(*[z3.Implies(z3.And(*p.cond), z3.BoolVal(len(adds(p)) == 1 and adds(p)[0].startswith("unfiltered_transaction_sets[EntrySetType.IN].add_entry(InTransaction(") and
-                                                                      len(arts(p)) == 1 and arts(p)[0].startswith("artificial_transaction_list.append(OutTransaction(") and not p.done)) for p in live])
-                      if live else z3.BoolVal(False), REL, 0))
-        s = ast.unparse(fn_)
-        out.append(A.bvc(q, "shape", "transaction_is_built_from_this_rows_values_and_sheet_row", "transaction: AbstractTransaction = _create_transaction(configuration, current_table_type, internal_id, row_values)" in s, REL))
-    p = A.func_node(pr.tree, "rp2.ods_parser.parse_ods")
-    s = ast.unparse(p) if p else ""
+                      z3.And(*[z3.Implies(z3.And(*p.cond), z3.BoolVal(two(p))) for p in live]) if live else z3.BoolVal(False), REL, 0))
+        out.append(A.bvc(q, "shape", "transaction_is_built_from_this_rows_values_and_sheet_row", A.has(fn_, "transaction = _create_transaction(configuration, current_table_type, internal_id, row_values)", mod.tree), REL))
+    P = A.Fn(pr.tree, "rp2.ods_parser.parse_ods")
     out.append(A.bvc("rp2.ods_parser.parse_ods", "shape", "artificial_fee_disposals_end_up_in_the_out_set",
-                     "for transaction in artificial_transaction_list:" in s and "elif isinstance(transaction, OutTransaction):\n            unfiltered_transaction_sets[EntrySetType.OUT].add_entry(transaction)" in s, REL))
+                     P.has("for transaction in artificial_transaction_list:\n    if isinstance(transaction, InTransaction):\n        ...\n    elif isinstance(transaction, OutTransaction):\n"
+                           "        unfiltered_transaction_sets[EntrySetType.OUT].add_entry(transaction)\n    else:\n        ..."), REL))
     return out
 
 
 def columns(pr):
     out = []
-    q = "rp2.configuration.Configuration.__get_table_constructor_argument_pack"
-    f = A.func_node(pr.tree, q)
-    s = ast.unparse(f) if f else ""
-    out.append(A.bvc(q, "post", "pack_maps_each_configured_field_to_the_cell_at_its_configured_column", "pack: Dict[str, Any] = {argument: data[position] for argument, position in header.items()}\n    return pack" in s, CFG))
-    out.append(A.bvc(q, "post", "short_row_is_rejected_not_padded", "max_column: int = header[max(header, key=header.get)]\n    if len(data) <= max_column:\n        raise RP2ValueError(" in s, CFG))
+    C = "rp2.configuration.Configuration."
+    q = C + "__get_table_constructor_argument_pack"
+    F = A.Fn(pr.tree, q)
+    out.append(A.bvc(q, "post", "pack_maps_each_configured_field_to_the_cell_at_its_configured_column", F.has("pack = {argument: data[position] for argument, position in header.items()}\nreturn pack") or
+                     F.has("return {argument: data[position] for argument, position in header.items()}"), CFG))
+    out.append(A.bvc(q, "post", "short_row_is_rejected_not_padded", F.has("max_column = header[max(header, key=header.get)]\nif len(data) <= max_column:\n    raise RP2ValueError(ANY)"), CFG))
     for tab in ("in", "out", "intra"):
-        g = A.func_node(pr.tree, f"rp2.configuration.Configuration.get_{tab}_table_constructor_argument_pack")
-        out.append(A.bvc(f"rp2.configuration.Configuration.get_{tab}_table_constructor_argument_pack", "post", "uses_the_header_map_of_its_own_table",
-                         g is not None and f"return self.__get_table_constructor_argument_pack(data, '{tab}', self.__{tab}_header)" in ast.unparse(g), CFG))
-    ct = A.func_node(pr.tree, "rp2.ods_parser._create_transaction")
-    s = ast.unparse(ct) if ct else ""
+        G = A.Fn(pr.tree, C + f"get_{tab}_table_constructor_argument_pack")
+        out.append(A.bvc(G.qual, "post", "uses_the_header_map_of_its_own_table", G.has(f"return self.__get_table_constructor_argument_pack(data, '{tab}', self.__{tab}_header)"), CFG))
+    CT = A.Fn(pr.tree, "rp2.ods_parser._create_transaction")
     for typ, tab, cls in (("IN", "in", "InTransaction"), ("OUT", "out", "OutTransaction"), ("INTRA", "intra", "IntraTransaction")):
-        ok = f"entry_set_type == EntrySetType.{typ}:\n        argument_pack" in s and f"= configuration.get_{tab}_table_constructor_argument_pack(row_values)\n        argument_pack = _process_constructor_argument_pack(configuration, argument_pack, internal_id, '{cls}')\n        transaction = {cls}(**argument_pack)" in s
-        out.append(A.bvc("rp2.ods_parser._create_transaction", "post", f"{typ}_table_rows_use_the_{tab}_column_map_and_the_{cls}_constructor", ok, REL))
-    v = A.func_node(pr.tree, "rp2.configuration.Configuration._validate_header_section")
-    s = ast.unparse(v) if v else ""
-    out.append(A.bvc("rp2.configuration.Configuration._validate_header_section", "post", "map_is_field_to_integer_column_as_written_in_the_config",
-                     "column_value: int = int(column.strip())" in s and "header_2_column[header.strip()] = column_value" in s and "return header_2_column" in s and
-                     "for header, column in section.items():" in s, CFG))
-    out.append(A.bvc("rp2.configuration.Configuration._validate_header_section", "post", "negative_duplicate_and_unknown_columns_are_rejected",
-                     "if column_value < 0:\n                raise RP2ValueError(" in s and "if column_value in column_to_header:\n                raise RP2ValueError(" in s and
-                     "if header not in _HEADER_COLUMNS[normalized_section_name]:\n                raise RP2ValueError(" in s and "column_to_header[column_value] = header" in s, CFG))
-    init = A.func_node(pr.tree, "rp2.configuration.Configuration.__init__")
-    s = ast.unparse(init) if init else ""
-    ok = all(f"self.__{t}_header = self._validate_header_section(ini_configuration[section_name], normalized_section_name, configuration_path)" in s for t in ("in", "out", "intra"))
-    sec = all(f"normalized_section_name == Keyword.{k}.value:\n                if self.__{t}_header:" in s for k, t in (("IN_HEADER", "in"), ("OUT_HEADER", "out"), ("INTRA_HEADER", "intra")))
-    out.append(A.bvc("rp2.configuration.Configuration.__init__", "post", "each_header_section_fills_the_map_of_its_table", ok and sec, CFG))
+        body = (f"argument_pack = configuration.get_{tab}_table_constructor_argument_pack(row_values)\n"
+                f"argument_pack = _process_constructor_argument_pack(configuration, argument_pack, internal_id, '{cls}')\ntransaction = {cls}(**argument_pack)")
+        ok = CT and any(isinstance(n, ast.If) and ast.unparse(n.test).endswith(f"== EntrySetType.{typ}") and A._match_block(ast.parse(body.replace("\\n", "\n")).body, n.body, CT.scope, anchored=True)
+                        for n in ast.walk(CT.node))
+        out.append(A.bvc(CT.qual, "post", f"{typ}_table_rows_use_the_{tab}_column_map_and_the_{cls}_constructor", bool(ok), REL))
+    V = A.Fn(pr.tree, C + "_validate_header_section")
+    out.append(A.bvc(V.qual, "post", "map_is_field_to_integer_column_as_written_in_the_config",
+                     V.has("column_value = int(column.strip())") and V.has("header_2_column[header.strip()] = column_value") and V.has("return header_2_column") and
+                     any(isinstance(n, ast.For) and A.expr_eq("section.items()", ast.unparse(n.iter), V.scope) for n in ast.walk(V.node)) if V else False, CFG))
+    out.append(A.bvc(V.qual, "post", "negative_duplicate_and_unknown_columns_are_rejected",
+                     V.has("if column_value < 0:\n    raise RP2ValueError(ANY)") and V.has("if column_value in column_to_header:\n    raise RP2ValueError(ANY)") and
+                     V.has("if header not in _HEADER_COLUMNS[normalized_section_name]:\n    raise RP2ValueError(ANY)") and V.has("column_to_header[column_value] = header"), CFG))
+    I = A.Fn(pr.tree, C + "__init__")
+    ok = all(I.has(f"if self.__{t}_header:\n    raise RP2ValueError(ANY)\nself.__{t}_header = self._validate_header_section(ini_configuration[section_name], normalized_section_name, configuration_path)")
+             for t in ("in", "out", "intra"))
+    sec = I and all(any(isinstance(n, ast.If) and A.expr_eq(f"normalized_section_name == Keyword.{k}.value", ast.unparse(n.test), I.scope) and
+                        A.has(n, f"self.__{t}_header = self._validate_header_section(ANY, ANY, ANY)", I.mod, scope=I.scope) and
+                        not any(A.has(n.body[0] if False else ast.Module(body=n.body, type_ignores=[]), f"self.__{o}_header = self._validate_header_section(ANY, ANY, ANY)", I.mod, scope=I.scope) for o in ("in", "out", "intra") if o != t)
+                        for n in ast.walk(I.node)) for k, t in (("IN_HEADER", "in"), ("OUT_HEADER", "out"), ("INTRA_HEADER", "intra")))
+    out.append(A.bvc(I.qual, "post", "each_header_section_fills_the_map_of_its_table", bool(ok and sec), CFG))
     # the field names of the config are the constructor parameter names
     mod = pr.tree.modules["rp2.configuration"]
     hc = mod.assigns.get("_HEADER_COLUMNS")
     names_ok = hc is not None
     if names_ok:
+        kwcls = next((n for n in mod.tree.body if isinstance(n, ast.ClassDef) and n.name == "Keyword"), None)
+        kv = {b.targets[0].id: b.value.value for b in kwcls.body if isinstance(b, ast.Assign) and isinstance(b.value, ast.Constant)} if kwcls else {}
         for tab, cls in (("in_header", "rp2.in_transaction.InTransaction"), ("out_header", "rp2.out_transaction.OutTransaction"), ("intra_header", "rp2.intra_transaction.IntraTransaction")):
             ctor = A.func_node(pr.tree, cls + ".__init__")
             params = {a.arg for a in ctor.args.args} if ctor else set()
-            src = ast.unparse(hc)
             fields = set()
             for k, val in zip(hc.keys, hc.values):
                 if tab.upper() in ast.unparse(k).upper():
                     fields = {ast.unparse(e) for e in val.elts} if isinstance(val, ast.Set) else set()
-            kw = pr.tree.modules["rp2.configuration"]
-            # Keyword.X.value -> the enum's string
-            kwcls = next((n for n in kw.tree.body if isinstance(n, ast.ClassDef) and n.name == "Keyword"), None)
-            kv = {b.targets[0].id: b.value.value for b in kwcls.body if isinstance(b, ast.Assign) and isinstance(b.value, ast.Constant)} if kwcls else {}
             strs = {kv.get(x.split(".")[1]) for x in fields if x.startswith("Keyword.") and x.endswith(".value")}
             names_ok = names_ok and bool(strs) and None not in strs and strs <= params
     out.append(A.bvc("rp2.configuration/<module>", "post", "config_field_names_are_constructor_parameter_names", bool(names_ok), CFG, open_=hc is None))
@@ -135,20 +151,20 @@ def columns(pr):
 def numbers(pr):
     out = []
     q = "rp2.ods_parser._process_constructor_argument_pack"
-    f = A.func_node(pr.tree, q)
-    s = ast.unparse(f) if f else ""
+    F = A.Fn(pr.tree, q)
+    f = F.node
     out.append(A.bvc(q, "post", "every_numeric_parameter_present_in_the_pack_is_converted_with_11_decimals",
-                     "numeric_parameters: List[str] = _get_decimal_constructor_argument_names(class_name)\n    for numeric_parameter in numeric_parameters:\n        if numeric_parameter in argument_pack:" in s and
-                     "argument_pack[numeric_parameter] = RP2Decimal(f'{value:.11f}') if value is not None else None" in s, REL))
-    fmt = [n for n in ast.walk(f) if isinstance(n, ast.FormattedValue) and n.format_spec is not None and ast.unparse(n.value) == "value"] if f else []
+                     F.has("numeric_parameters = _get_decimal_constructor_argument_names(class_name)\nfor numeric_parameter in numeric_parameters:\n    if numeric_parameter in argument_pack:\n        ...") and
+                     F.has("argument_pack[numeric_parameter] = RP2Decimal(f'{value:.11f}') if value is not None else None") and F.has("value = argument_pack[numeric_parameter]"), REL))
+    fmt = [n for n in ast.walk(f) if isinstance(n, ast.FormattedValue) and n.format_spec is not None and any(isinstance(c, ast.Call) and A.dotted(c.func) == "RP2Decimal" and any(y is n for y in ast.walk(c)) for c in ast.walk(f))] if f else []
     spec = ["".join(v.value for v in n.format_spec.values if isinstance(v, ast.Constant)) for n in fmt]
     digits = [int(x[1:-1]) for x in spec if x.startswith(".") and x.endswith("f") and x[1:-1].isdigit()]
-    out.append(A.bvc(q, "post", "at_least_11_decimal_digits_are_kept", bool(digits) and min(digits) >= 11, REL, str(spec)))
-    out.append(A.bvc(q, "post", "row_id_and_configuration_are_added_to_the_pack", "argument_pack.update({'configuration': configuration, 'row': internal_id})" in s, REL))
-    g = A.func_node(pr.tree, "rp2.ods_parser._get_decimal_constructor_argument_names")
-    s = ast.unparse(g) if g else ""
-    out.append(A.bvc("rp2.ods_parser._get_decimal_constructor_argument_names", "post", "numeric_parameters_are_those_annotated_as_decimal",
-                     "for parameter_name, parameter_type in arg_spec.annotations.items():\n        if parameter_type in [RP2Decimal, Optional[RP2Decimal]]:\n            result.append(parameter_name)" in s, REL))
+    out.append(A.bvc(q, "post", "at_least_11_decimal_digits_are_kept", bool(digits) and len(digits) == len(spec) and min(digits) >= 11, REL, str(spec)))
+    out.append(A.bvc(q, "post", "row_id_and_configuration_are_added_to_the_pack", F.has("argument_pack.update({'configuration': configuration, 'row': internal_id})"), REL))
+    G = A.Fn(pr.tree, "rp2.ods_parser._get_decimal_constructor_argument_names")
+    out.append(A.bvc(G.qual, "post", "numeric_parameters_are_those_annotated_as_decimal",
+                     G.has("for parameter_name, parameter_type in arg_spec.annotations.items():\n    if parameter_type in [RP2Decimal, Optional[RP2Decimal]]:\n        result.append(parameter_name)") and
+                     G.has("arg_spec = inspect.getfullargspec(class_to_inspect.__init__)") and G.has("return result"), REL))
     return out
 
 
@@ -164,22 +180,23 @@ OUT_KW = {"configuration": "configuration", "timestamp": "f'{transaction.timesta
 def fee_split(pr):
     out = []
     q = "rp2.ods_parser._create_and_process_transaction"
-    f = A.func_node(pr.tree, q)
+    f = _split_fn(pr)
     if f is None:
         return [A.bvc(q, "post", "function_present", False, REL, open_=True)]
+    sc = A.scope_of(f, pr.tree.modules["rp2.ods_parser"].tree)
     for cls, want in (("InTransaction", IN_KW), ("OutTransaction", OUT_KW)):
         calls = [n for n in ast.walk(f) if isinstance(n, ast.Call) and A.dotted(n.func) == cls]
         kw = {k.arg: ast.unparse(k.value) for k in calls[0].keywords} if len(calls) == 1 else {}
         for name, val in sorted(want.items()):
-            out.append(A.bvc(q, "post", f"{cls}_{name}_is_{A._lab(val)}", kw.get(name) == val, REL, f"{name}={kw.get(name)}"))
+            out.append(A.bvc(q, "post", f"{cls}_{name}_is_{A._lab(val)}", name in kw and A.expr_eq(val, kw[name], sc), REL, f"{name}={kw.get(name)}"))
         extra = set(kw) - set(want) - {"notes"}
         out.append(A.bvc(q, "post", f"{cls}_no_further_value_arguments", len(calls) == 1 and not extra and not calls[0].args, REL, str(sorted(extra))))
-    g = A.func_node(pr.tree, "rp2.configuration.Configuration.get_new_artificial_id")
-    s = ast.unparse(g) if g else ""
-    out.append(A.bvc("rp2.configuration.Configuration.get_new_artificial_id", "post", "artificial_ids_are_negative_and_fresh",
-                     "self.__artificial_id_counter -= 1\n        result = self.__artificial_id_counter" in s and "self.__artificial_id_counter: int = 0" in ast.unparse(A.func_node(pr.tree, "rp2.configuration.Configuration.__init__")), CFG))
-    p = A.func_node(pr.tree, "rp2.in_transaction.InTransaction.is_crypto_fee_defined")
-    out.append(A.bvc("rp2.in_transaction.InTransaction.is_crypto_fee_defined", "post", "split_applies_exactly_when_a_crypto_fee_is_present", p is not None and "return self.crypto_fee > ZERO" in ast.unparse(p), "src/rp2/in_transaction.py"))
+    G = A.Fn(pr.tree, "rp2.configuration.Configuration.get_new_artificial_id")
+    I = A.Fn(pr.tree, "rp2.configuration.Configuration.__init__")
+    out.append(A.bvc(G.qual, "post", "artificial_ids_are_negative_and_fresh",
+                     G.has("self.__artificial_id_counter -= 1\nresult = self.__artificial_id_counter") and G.has("return result") and I.has("self.__artificial_id_counter = 0"), CFG))
+    P = A.Fn(pr.tree, "rp2.in_transaction.InTransaction.is_crypto_fee_defined")
+    out.append(A.bvc(P.qual, "post", "split_applies_exactly_when_a_crypto_fee_is_present", P.has("return self.crypto_fee > ZERO"), "src/rp2/in_transaction.py"))
     return out
 
 
